@@ -17,6 +17,12 @@ type Scenario struct {
 	Logger  string `json:"logger,omitempty"`  // "" (discard) | debug
 	SWRSet  bool   `json:"swr_set,omitempty"` // WithSWRTimeout passed?
 	SWRNs   int64  `json:"swr_ns,omitempty"`  // value passed to WithSWRTimeout
+	// Zone is the local time zone of the process that generated the case ("utc", "east",
+	// "west"; "" = whatever the running process has): a replay runs under the same zone.
+	Zone string `json:"zone,omitempty"`
+	// SWRPre: values of earlier WithSWRTimeout options in the same option list (the last
+	// option, SWRNs, is the one in force)
+	SWRPre []int64 `json:"swr_pre,omitempty"`
 	Steps   []Step `json:"steps"`
 	// Threads, if present, run concurrently after Steps (each thread issues its requests in order).
 	Threads [][]*Req `json:"threads,omitempty"`
@@ -81,6 +87,8 @@ type Req struct {
 	// again (a retry loop does that); Method, URL and Header of this Req are then those of
 	// that step.
 	SameObj int `json:"same_obj,omitempty"`
+	// BodyLen > 0: the request carries a body of that many bytes (known length).
+	BodyLen int `json:"body_len,omitempty"`
 	// EmptyMethod: the request is sent with Method "" (which net/http defines as GET).
 	EmptyMethod bool `json:"empty_method,omitempty"`
 	Uncond     Reply  `json:"uncond"`
@@ -99,6 +107,9 @@ type Reply struct {
 	Trailer   [][2]string `json:"trailer,omitempty"`
 	Body      Body        `json:"body"`
 	NoTok     bool        `json:"no_tok,omitempty"` // do not add the X-Tok header / body token
+	// IgnoreCtx: the origin answers whatever happens to the request's context (an upstream that
+	// does not watch the context, or whose answer was complete just before the context ended).
+	IgnoreCtx bool `json:"ignore_ctx,omitempty"`
 }
 
 // Body describes the reply body. The origin expands it deterministically.
